@@ -34,6 +34,13 @@ def main():
         except Exception:
             traceback.print_exc()
             print(f"[{pid}] unexpected error (attempt {attempt})", flush=True)
+        # a violation that was already established stands, whatever went wrong afterwards (a library that breaks
+        # the property often breaks later phases of the check as well: TLC rejecting half-written traces, harness
+        # time-outs): report it instead of "machinery failed"
+        chk = getattr(vlib.Check, "current", None)
+        if chk is not None and chk.pid == pid and chk.violations:
+            print(f"[{pid}] the check did not run to its end, but violations were already established", flush=True)
+            return chk.finish()
     return 2
 
 
